@@ -806,6 +806,89 @@ def side_conditions_rule(ctx):
                     why = "the tag `%s` is produced at %d place(s), each under `%s(%r)` of the attribute name itself: %s" % (tag, len(sites), test, lit, okall)
             obs.append(ob(key, verdict, ctx.where(g), why, witness=None if verdict is not False else "<view Data-id=\"1\"/>: the guard accepts a name the unwrap cannot strip"))
     obs += for_wrap_rule(ctx)
+    # `skip_bytes(N)` with a literal N slices N bytes off the rest of the input: what reaches it has tested that they are there
+    # (a look-ahead of at least N-1 further characters that found one, or a prefix test with a literal of at least N bytes)
+    import guards as gd
+    for g in ctx.tc.fns:
+        if not g.body or g.module[:1] != ["parse"]:
+            continue
+        Gs = None
+        k_ = 0
+        for n in sir.walk(g.body, into_closures=True):
+            if not (n.get("k") == "mcall" and n["m"] == "skip_bytes" and n["args"] and n["args"][0].get("k") == "lit" and str(n["args"][0].get("v", "")).isdigit() and int(n["args"][0]["v"]) > 0):
+                continue
+            need = int(n["args"][0]["v"])
+            Gs = Gs or gd.guards_of(g.body)
+            have = 0
+            for kind, subj, pol in Gs.get(id(n), []):
+                if kind == "pat":
+                    e_, ptxt = subj
+                    e_ = sir.strip_ref(e_)
+                    while e_.get("k") == "try":
+                        e_ = e_["e"]
+                    if e_.get("k") == "mcall" and e_["m"] == "peek":
+                        kk = re.sub(r"\D", "", e_.get("tf") or "") or "0"
+                        found = (ptxt.replace(" ", "") == "None" and pol is False) or (ptxt.replace(" ", "").startswith("Some(") and pol is True)
+                        if found:
+                            have = max(have, int(kk) + 1)
+                if kind == "cond" and pol:
+                    for y in sir.walk(subj):
+                        if y.get("k") == "mcall" and y["m"] in ("starts_with", "peek_str") and y["args"] and sir.strip_ref(y["args"][0]).get("k") == "lit" and sir.strip_ref(y["args"][0]).get("t") == "str":
+                            have = max(have, len(sir.strip_ref(y["args"][0])["v"].encode()))
+            k_ += 1
+            tests = any(y.get("k") == "mcall" and y["m"] in ("peek", "peek_str", "starts_with", "peek_n", "skip_until_before") for y in sir.walk(g.body, into_closures=True))
+            verdict = True if have >= need else (False if tests else None)
+            obs.append(ob("C01.panic/side/skip-bytes/%s#%d" % (g.qual, k_), verdict, ctx.where(g),
+                          "`skip_bytes(%d)` runs where at least %d byte(s) are known to be left" % (need, have) if verdict else "`skip_bytes(%d)` is reached without a test that %d bytes are left (known: %d)" % (need, need, have),
+                          witness=None if verdict is not False else "`<wxs module=\"m\">a</wxs` at the end of the input: the slice of 5 bytes is out of range"))
+    # the text generated for an operand is pasted once: a buffer filled by a recursive generator call that is written twice
+    # doubles the output per nesting level (2^depth for a chain)
+    dup = []
+    n_buf = 0
+    for g in ctx.tc.fns:
+        if not g.body or g.module[:2] != ["proc_gen", "expr"]:
+            continue
+        bufs = set()
+        for n in sir.walk(g.body, into_closures=True):
+            if n.get("k") in ("call", "mcall") and (sir.call_name(n) or "").split("::")[-1].startswith("to_proc_gen_rec"):
+                for a in n["args"]:
+                    if a.get("k") == "ref" and a.get("mut") and a["e"].get("k") == "path" and len(a["e"]["segs"]) == 1:
+                        bufs.add(a["e"]["segs"][0])
+        bufs -= set(x for x in g.param_names() if x)
+        n_buf += len(bufs)
+        for n in sir.walk(g.body, into_closures=True):
+            wf = sir.write_fmt_call(n)
+            if not wf:
+                continue
+            cnt = {}
+            for p_ in wf[1]:
+                if p_[0] == "hole" and isinstance(p_[1], dict):
+                    e_ = sir.strip_ref(p_[1])
+                    if e_.get("k") == "path" and len(e_["segs"]) == 1 and e_["segs"][0] in bufs:
+                        cnt[e_["segs"][0]] = cnt.get(e_["segs"][0], 0) + 1
+            for b_, c_ in cnt.items():
+                if c_ > 1:
+                    dup.append("%s writes the generated text `%s` %d times in one fragment" % (g.name, b_, c_))
+    obs.append(ob("C01.size/operand-once", False if dup else True if n_buf >= 2 else None, "proc_gen/expr.rs", "; ".join(dup[:2]) if dup else "%d operand buffers, none pasted twice into one fragment" % n_buf,
+                  witness=None if not dup else "{{ a ?? b ?? c ?? .. }} with 40 operators generates 2^40 copies of `a`"))
+    # a function that walks the expression tree through the generic child iterator visits every child once: a second recursive
+    # call on a child next to that loop doubles the work per level (2^depth on a member chain)
+    twice = []
+    n_walk = 0
+    for g in ctx.tc.fns:
+        if not g.body:
+            continue
+        loops = [n for n in sir.walk(g.body) if n.get("k") == "for" and re.search(r"\bsub_expressions(_mut)?\(\)", sir.expr_str(n["e"]).replace(" ", ""))
+                 and any(x.get("k") == "mcall" and x["m"] == g.name for x in sir.walk(n["body"]))]
+        if not loops:
+            continue
+        n_walk += 1
+        inside = set(id(x) for l_ in loops for x in sir.walk(l_))
+        extra = [x for x in sir.walk(g.body, into_closures=True) if x.get("k") == "mcall" and x["m"] == g.name and id(x) not in inside and sir.expr_str(x["recv"]) not in ("self",)]
+        if extra:
+            twice.append("%s calls itself on `%s` and again for every child" % (g.qual.split("::")[-1], sir.expr_str(extra[0]["recv"])[:30]))
+    obs.append(ob("C01.size/child-once", False if twice else True if n_walk >= 2 else None, "parse/expr.rs", "; ".join(twice[:2]) if twice else "%d generic tree walks, each recursing only through the child iterator" % n_walk,
+                  witness=None if not twice else "<a wx:if=\"{{ a.b.c.d. .. (40 members) }}\"/> takes 2^40 steps to parse"))
     from rules.c05 import check_mirror, slot_key_rule
     for x in check_mirror(ctx) + slot_key_rule(ctx):
         x = dict(x)
